@@ -64,7 +64,9 @@ var c17Kinds = []string{"int", "char", "float", "bool", "string", "ints", "strs"
 	// arrays made by map, arrays whose cached type is stale
 	"dur", "fnv", "symv", "listv", "uint", "rawv", "mapints", "mapstrs", "staleints", "staleempty",
 	// records that carry the name of a type that is no struct (a record can be given any type name)
-	"recint", "recstr", "recslice", "recptr"}
+	"recint", "recstr", "recslice", "recptr",
+	// an array that was typed (and accepted somewhere) as ints, grown by a string afterwards
+	"cachedplus"}
 
 func typeSrc(t string) string {
 	switch {
@@ -204,8 +206,11 @@ func execC17(body json.RawMessage) *kernel.Result {
 	}
 	c17Prefix = sc.Prefix
 	envs := make([]*zygo.Zlisp, sc.Envs)
+	// a helper struct with slice fields: storing an array in one of them is what makes the array remember its type
+	helper := "Zh" + strings.TrimPrefix(sc.Prefix, "T")
 	for i := range envs {
 		envs[i] = zy.New("std")
+		zy.Eval(envs[i], fmt.Sprintf("(struct %s [(field N: ([]int64)) (field M: ([]string))]) ", helper), 100000)
 	}
 	m := &c17Model{decl: map[int]map[string]string{}, bound: map[[2]int]bool{}, inst: map[[2]int]*mInst{}, ptrs: map[[2]int]int{}}
 	fail := func(clause, site, f string, a ...interface{}) {
@@ -275,7 +280,9 @@ func execC17(body json.RawMessage) *kernel.Result {
 			return "(map (fn [x] (str x)) [1 2])"
 		case "staleints":
 			// ints in an array that was typed as strings while it held strings
-			return `(let [e ["m" "n"]] (type? e) (hset (hash) a: e) (append (append (slice e 2 2) 1) 2))`
+			return "(let [e [\"m\" \"n\"]] (" + helper + " M: e) (append (append (slice e 2 2) 1) 2))"
+		case "cachedplus":
+			return "(let [e [1 2]] (" + helper + ` N: e) (append e "z"))`
 		case "recint":
 			return `(msgmap "int64" (list (quote a) 1))`
 		case "recstr":
@@ -286,7 +293,7 @@ func execC17(body json.RawMessage) *kernel.Result {
 			return `(msgmap "*int64" (list (quote a) 1))`
 		case "staleempty":
 			// an int in an array that was typed while it was empty
-			return "(let [e []] (type? e) (append e 5))"
+			return "(let [e []] (" + helper + " N: e) (append e 5))"
 		}
 		if strings.HasPrefix(kind, "ptr") || strings.HasPrefix(kind, "inst") {
 			isPtr := strings.HasPrefix(kind, "ptr")
